@@ -391,6 +391,8 @@ class CallMixin:
                 return False, kn
             if xk is not None and xk == kn:
                 return True, kn
+            if xk is not None and getattr(x, "exact", False) and not xk.endswith("Schema"):
+                return False, kn
             if xk is not None and xk in ("int", "str", "float", "bool", "bytes", "list", "dict", "tuple", "NoneType", "ellipsis", "UUID", "datetime", "date"):
                 return False, kn
             uid = getattr(x, "uid", None)
